@@ -669,7 +669,7 @@ func gen(t *rapid.T) Case {
 		if rapid.Bool().Draw(t, "pat") {
 			s["pattern"] = "^[a-c]+$"
 		}
-		return Case{Mode: "text", Schema: jv.Canon(s), Value: jv.Canon(rapid.SampledFrom([]string{"a", "abc", "hello world", "é", "{\"a\":1}", "12"}).Draw(t, "text"))}
+		return Case{Mode: "text", Schema: jv.Canon(s), Value: jv.Canon(rapid.SampledFrom([]string{"a", "abc", "hello world", "é", "{\"a\":1}", "12", " ", "\r\n", " \t ", "  ab", "\n"}).Draw(t, "text"))}
 	default:
 		depth := 2
 		if h.Thorough() {
